@@ -314,6 +314,18 @@ impl PhysicalOperator for SpillableHashJoinExec {
                         .first()
                         .map(|b| b.schema())
                         .unwrap_or_else(|| build_side.schema());
+                    // A build side that produced no batch at all (a Parquet scan of an
+                    // empty file, or one whose decoder filter kept nothing) must still
+                    // hand its columns to the join: HashJoinExec reads the build schema
+                    // off the first build batch, and an outer join then emitted rows
+                    // without the build side's columns ("number of columns(k) must match
+                    // number of fields(n)") where the same rows in memory — which arrive
+                    // as one empty batch — joined fine.
+                    let build_batches = if build_batches.is_empty() {
+                        vec![RecordBatch::new_empty(build_schema.clone())]
+                    } else {
+                        build_batches
+                    };
                     let build_mem = Arc::new(crate::physical::operators::MemoryTableExec::new(
                         "join_build",
                         build_schema,
